@@ -60,6 +60,19 @@ CLAIMED = {
         "Binding negative control: graphs with an injected dangling dependency, cycle, renamed or shifted key must all be rejected.",
         "DESIGN.md §4 C04, §9",
     ),
+    "C05": (
+        "TLC-enumerated ArrayProgram behaviours replayed; the value through 8 entry points and the identity of returned collections "
+        "recorded and validated by TLC (Collection.EntryVerdict); Persist actions (denotation kept) followed by further operations",
+        "Exhaustive within bounds over the lean domains (strided in the quick tier): (a) for every collection of the corpora, "
+        "x.compute(), dask.compute(x), dask.compute(other, x), x.persist(), dask.persist(x), dask.optimize(x), x.optimize() and "
+        "x.to_delayed() (every block computed separately and assembled) must give the same value, and the persisted / "
+        "dask-optimized collections must keep x's name, chunks and dtype; (b) behaviours op ; Persist(entry) ; op: the follow-on "
+        "collection must compute the denotation in every phase with the advertised block sizes.",
+        "Known finding F01 (dask.optimize / dask.persist go through dask's generic optimizer, which breaks whenever that path does "
+        "not build x's own pinned graph) is reported as KNOWN-FINDING, identified by that structural trigger; follow-on operations "
+        "after those two entry points are explored only where the trigger does not apply.",
+        "DESIGN.md §4 C05, §9",
+    ),
     "C08": (
         "TLC-enumerated ArrayProgram behaviours replayed; pass-by-pass optimization traces recorded and validated by TLC against "
         "the pass machine of Optimizer.tla (OptimizeVerdict); Optimizer.tla model-checked for termination",
@@ -165,6 +178,17 @@ CLAIMED = {
         "Known finding F06 (Blocks reports a non-zero estimate) is reported as KNOWN-FINDING; F16 (Blockwise estimate raised "
         "TypeError for list indices) was repaired by a fix: commit. Arrays with unknown chunk sizes are outside this check.",
         "DESIGN.md §4 C27, §9",
+    ),
+    "C28": (
+        "TLC-enumerated ArrayProgram behaviours with data-dependent selections replayed; blocks and values recorded and validated "
+        "by TLC (Collection.BlocksVerdict, Collection.UnknownVerdict)",
+        "Exhaustive within bounds: producers MaskSelect (thresholds selecting none / some / all elements) and flatnonzero, argwhere, "
+        "unique over every small source and chunk grid; ComputeChunkSizes in place (afterwards every size must be known and equal to "
+        "the true size of the block the graph produces); follow-on operations (every lean operation after the producer; chains "
+        "producer ; compute_chunk_sizes | op ; op).  For every collection from the producer on, the pinned graph is executed: each "
+        "advertised known size must be the block's true size, and the value must be the denotation - unless the operation raised.",
+        "An operation that raises on unknown or resolved sizes is accepted. compress / nonzero tuples are not modelled.",
+        "DESIGN.md §4 C28, §9",
     ),
 }
 
